@@ -94,12 +94,12 @@ func init() {
 	justGuards["sshutils/key.CastSSHPublicKeyToCertificate|type assertion call<ssh.ParsePublicKey>(call<(ssh.PublicKey).Marshal>(p0))#0.(*ssh.Certificate)"] = func(w *World, fn *ssa.Function, ins ssa.Instruction) bool {
 		// must-fact: strings.Contains(key.Type(), "cert") == true
 		return w.factsOf(fn).Any(ins.Block(), func(l Lit) bool {
-			call, ok := l.V.(*ssa.Call)
-			if !ok || !l.Pol || calleeName(call) != "strings.Contains" || len(call.Call.Args) != 2 {
+			hay, sub, pol, ok := containsTest(l.V)
+			if !ok || pol != l.Pol {
 				return false
 			}
-			k, isK := strConst(call.Call.Args[1])
-			return isK && k == "cert" && strings.HasSuffix(w.ExprIn(fn, call.Call.Args[0]), "ssh.PublicKey).Type>(p0)")
+			k, isK := strConst(sub)
+			return isK && k == "cert" && strings.HasSuffix(w.ExprIn(fn, hay), "ssh.PublicKey).Type>(p0)")
 		})
 	}
 	commonJust["attestation/yubiattest.ModHex|index alloc<[8]byte>[:const(8)][phi{(↺+const(2))|phi{(const(0)+const(2))|const(0)}}]"] = "dst index runs from the arm's offset in steps of 2 over len(serial) bytes; C16.R4 decides 2*len(serial)+offset == 8 in each admitted arm"
@@ -452,6 +452,8 @@ func modhexIndexGuard(w *World, fn *ssa.Function, ins ssa.Instruction, facts *Fa
 		if al, isAl := x.X.(*ssa.Alloc); isAl {
 			is8 = arrayLen(al.Type()) == 8
 		}
+	case *ssa.Alloc:
+		is8 = arrayLen(x.Type()) == 8 // the array itself, indexed in place
 	}
 	if !is8 {
 		return false
